@@ -234,7 +234,9 @@ class Vertex(base.BaseObject):
 
         if link in self._links:
             self._links.remove(link)
-            link.unlink_from(self)
+            # a link may list this vertex more than once (e.g. a self-loop)
+            while self in link.vertices:
+                link.unlink_from(self)
 
         self._qa_neighbors_invalidate()
 
